@@ -64,6 +64,7 @@ Definition nops : ops val :=
      o_add := fun a b => VF (Bplus mode_NE (to_f a) (to_f b));
      o_sub := fun a b => VF (Bminus mode_NE (to_f a) (to_f b));
      o_mul := fun a b => VF (Bmult mode_NE (to_f a) (to_f b));
+     o_rint := fun a => VF (Bnearbyint mode_NE (to_f a));
      o_cast := ncast |}.
 
 (* the generator state seen through its output: the deviates still to come *)
@@ -139,6 +140,7 @@ Definition fops (prec emax : Z) (Hp : Prec_gt_0 prec) (Hm : Prec_lt_emax prec em
   : ops (binary_float prec emax) :=
   {| o_zero := B754_zero false;
      o_add := Bplus mode_NE; o_sub := Bminus mode_NE; o_mul := Bmult mode_NE;
+     o_rint := Bnearbyint mode_NE;
      o_cast := fun _ _ x => x |}.
 Definition fops64 := fops 53 1024 _ _.
 Definition fops32 := fops 24 128 _ _.
